@@ -1,0 +1,83 @@
+//go:build verif && !test
+
+package os
+
+import (
+	"fmt"
+	"io"
+	"os"
+	"strings"
+	"sync"
+
+	"github.com/glebziz/fs_db/internal/verifhook"
+)
+
+// WriteFault makes writes to files below Prefix run out of space (build tag
+// `verif`; the repository's own file_t.go does the same under its `test` tag).
+// The file can hold Cap bytes: the first Write that would go past Cap writes
+// min(Cap-offset, Keep) bytes of its chunk (Keep = 0: nothing, all-or-nothing;
+// Keep large: everything that fits, as a real full disk does) and returns
+// ErrNotEnoughSpace wrapped in *os.PathError like (*os.File).Write.
+type WriteFault struct {
+	Prefix string
+	Cap    int64
+	Keep   int64
+}
+
+var (
+	faultM sync.RWMutex
+	faults []WriteFault
+)
+
+// SetWriteFaults installs the fault plan (nil = none). Process-global.
+func SetWriteFaults(fs []WriteFault) {
+	faultM.Lock()
+	defer faultM.Unlock()
+
+	faults = append([]WriteFault(nil), fs...)
+}
+
+func faultFor(name string) (WriteFault, bool) {
+	faultM.RLock()
+	defer faultM.RUnlock()
+
+	for _, f := range faults {
+		if strings.HasPrefix(name, f.Prefix) {
+			return f, true
+		}
+	}
+
+	return WriteFault{}, false
+}
+
+func (f File) Write(p []byte) (n int, err error) {
+	name := f.Name()
+
+	off, err := f.File.Seek(0, io.SeekCurrent)
+	if err != nil {
+		return 0, err
+	}
+
+	verifhook.Mut("os.write", fmt.Sprintf("%s %d %d", name, off, len(p)))
+
+	ft, ok := faultFor(name)
+	if !ok || off+int64(len(p)) <= ft.Cap {
+		return f.File.Write(p)
+	}
+
+	keep := min(max(ft.Cap-off, 0), max(ft.Keep, 0), int64(len(p)))
+	if keep > 0 {
+		n, err = f.File.Write(p[:keep])
+		if err != nil {
+			return n, err
+		}
+	}
+
+	return n, &os.PathError{Op: "write", Path: name, Err: ErrNotEnoughSpace}
+}
+
+func (f File) Close() error {
+	verifhook.Mut("os.close", f.Name())
+
+	return f.File.Close()
+}
